@@ -22,6 +22,8 @@ func envOr(k, d string) string {
 var (
 	repoRoot  = envOr("VERIF_REPO", "/repo")
 	verifHome = envOr("VERIF_HOME", "/verif")
+	// evidence and replay files go here (seed-matrix runs against scratch worktrees set it to a scratch directory)
+	outHome = envOr("VERIF_OUTDIR", envOr("VERIF_HOME", "/verif"))
 )
 
 // overlayFiles maps virtual paths inside the repository to harness sources under /verif/harness/tree.
